@@ -19,6 +19,6 @@ for d in sys.argv[1:]:
             "files": m.get("files"), "author": "independent sub-agent given only the property text and a scratch worktree",
             "author_ran": m.get("ran"),
             "confirmed_by_me": {"how": "corr/confirm_seed.sh in a fresh scratch worktree of /repo HEAD: demo on clean tree, git apply, go build ./..., demo with patch, existing tests", **c},
-            "detected_by": m.get("detected_by", "not yet evaluated")}
+            "detected_by": (json.load(open(os.path.join(out, "meta.json"))).get("detected_by") if os.path.exists(os.path.join(out, "meta.json")) else None) or "not yet evaluated"}
     json.dump(meta, open(os.path.join(out, "meta.json"), "w"), indent=1)
     print(name, "kept")
